@@ -24,9 +24,9 @@ func init() {
 			"CopyConfig/ExtendConf results are probed for aliasing in both directions (a marker written into every map / slice element of one side must not show in the other). " +
 			"A case is non-trivial when the source has >=1 directive or the config >=1 entry in each map; distinct = distinct (config summary, source).",
 		Assumptions: []string{"operator code pointers are compared with reflect; behaviour is compared on PRNG-chosen bindings"},
-		NumCases:     func(tier string) int { return map[string]int{"quick": 4000, "thorough": 60000}[tier] },
+		NumCases:     func(tier string) int { return map[string]int{"quick": 8000, "thorough": 500000}[tier] },
 		Run:          c08Run,
-		RaceNumCases: func(tier string) int { return map[string]int{"quick": 128, "thorough": 1500}[tier] },
+		RaceNumCases: func(tier string) int { return map[string]int{"quick": 128, "thorough": 8000}[tier] },
 		RaceRun:      c08Race,
 		RaceProcs:    8,
 		Floors: func(m *Merged, tier string) []string {
